@@ -111,10 +111,13 @@ func (m *Machine) exec(fr *frame, instr ssa.Instruction) continuation {
 
 	case *ssa.Defer:
 		fn, args := m.prepareCall(fr, &instr.Call)
+		target := fr
 		if instr.DeferStack != nil {
-			m.unsupported("defer with explicit defer stack (range-over-func)")
+			if ds, ok := fr.get(instr.DeferStack).(*deferStack); ok && ds != nil {
+				target = ds.fr
+			}
 		}
-		fr.defers = &deferred{fn: fn, args: args, instr: instr, tail: fr.defers}
+		target.defers = &deferred{fn: fn, args: args, instr: instr, tail: target.defers}
 
 	case *ssa.Go:
 		fn, args := m.prepareCall(fr, &instr.Call)
@@ -965,6 +968,8 @@ func (m *Machine) decodeRune(s Str, i int) (*Term, int) {
 	}
 	cont := func(b *Term) *Term { return inRange(b, 0x80, 0xBF) }
 	low6 := func(b *Term) *Term { return tt.Bin(OpBAnd, ext(b), tt.BV(32, 0x3F)) }
+	// All branches below are on one byte at a time so that the byte-domain
+	// front solver decides them.
 	// two-byte: C2..DF
 	if m.branch(inRange(b0, 0xC2, 0xDF), "utf8: 2-byte lead") {
 		if i+1 >= n {
@@ -984,9 +989,16 @@ func (m *Machine) decodeRune(s Str, i int) (*Term, int) {
 		}
 		b1, b2 := m.strAt(s, i+1), m.strAt(s, i+2)
 		// second byte range depends on lead: E0: A0..BF, ED: 80..9F, else 80..BF
-		ok1 := tt.Ite(tt.Eq(b0, tt.BV(8, 0xE0)), inRange(b1, 0xA0, 0xBF),
-			tt.Ite(tt.Eq(b0, tt.BV(8, 0xED)), inRange(b1, 0x80, 0x9F), cont(b1)))
-		if !m.branch(tt.And(ok1, cont(b2)), "utf8: continuation") {
+		lo, hi := uint64(0x80), uint64(0xBF)
+		if m.branch(tt.Eq(b0, tt.BV(8, 0xE0)), "utf8: lead E0") {
+			lo = 0xA0
+		} else if m.branch(tt.Eq(b0, tt.BV(8, 0xED)), "utf8: lead ED") {
+			hi = 0x9F
+		}
+		if !m.branch(inRange(b1, lo, hi), "utf8: continuation") {
+			return bad()
+		}
+		if !m.branch(cont(b2), "utf8: continuation") {
 			return bad()
 		}
 		r := tt.Bin(OpBOr, tt.Bin(OpBOr,
@@ -1000,9 +1012,19 @@ func (m *Machine) decodeRune(s Str, i int) (*Term, int) {
 			return bad()
 		}
 		b1, b2, b3 := m.strAt(s, i+1), m.strAt(s, i+2), m.strAt(s, i+3)
-		ok1 := tt.Ite(tt.Eq(b0, tt.BV(8, 0xF0)), inRange(b1, 0x90, 0xBF),
-			tt.Ite(tt.Eq(b0, tt.BV(8, 0xF4)), inRange(b1, 0x80, 0x8F), cont(b1)))
-		if !m.branch(tt.And(tt.And(ok1, cont(b2)), cont(b3)), "utf8: continuation") {
+		lo, hi := uint64(0x80), uint64(0xBF)
+		if m.branch(tt.Eq(b0, tt.BV(8, 0xF0)), "utf8: lead F0") {
+			lo = 0x90
+		} else if m.branch(tt.Eq(b0, tt.BV(8, 0xF4)), "utf8: lead F4") {
+			hi = 0x8F
+		}
+		if !m.branch(inRange(b1, lo, hi), "utf8: continuation") {
+			return bad()
+		}
+		if !m.branch(cont(b2), "utf8: continuation") {
+			return bad()
+		}
+		if !m.branch(cont(b3), "utf8: continuation") {
 			return bad()
 		}
 		r := tt.Bin(OpBOr, tt.Bin(OpBOr, tt.Bin(OpBOr,
